@@ -170,12 +170,14 @@ class RefHist:
     def frame(self, before, allowed, label):
         out = []
         after = self.I.mem
-        for k in (set(before) | set(after)) - {"#bytes"}:
+        for k in {k for k in set(before) | set(after) if not k.startswith("#")}:
             if before.get(k, "<unknown>") == after.get(k, "<unknown>") or (k in before and k in after and self.I._eq(before[k], after[k]) is True):
                 continue
             p = self.W.polys.get(k)
             if p is None:
                 continue
+            if k not in after and self.I.mem.get("#imprecise"):
+                raise AnalysisError(f"{label}: the word at {p!r} cannot be followed through a bulk store (update_from_nplike / data of unknown length)")
             if not any((p - pos).is_const() and 0 <= (p - pos).const_value() < nb for pos, nb in allowed):
                 out.append(f"{label}: the word at {p!r} changes from {before.get(k, '<unknown>')!r} to {after.get(k, '<unknown>')!r}, outside what the operation may touch")
         return out[:2]
